@@ -169,19 +169,51 @@ def gen_mpe_case(rng, ctx, malformed):
                 sel=sel, DF=float(DF))
 
 
+FORMS = ("list", "tuple", "ndarray", "int-list", "int-tuple", "int64", "int32", "mixed")
+
+
+def in_form(sel, form):
+    """the same selected frequencies in the form a caller may pass them (the values are integers for the int forms)."""
+    if form == "tuple":
+        return tuple(float(x) for x in sel)
+    if form == "ndarray":
+        return np.array(sel, dtype=float)
+    if form == "int-list":
+        return [int(x) for x in sel]
+    if form == "int-tuple":
+        return tuple(int(x) for x in sel)
+    if form == "int64":
+        return np.array([int(x) for x in sel], dtype=np.int64)
+    if form == "int32":
+        return np.array([int(x) for x in sel], dtype=np.int32)
+    if form == "mixed":
+        return [int(x) if i % 2 == 0 else float(x) for i, x in enumerate(sel)]
+    return [float(x) for x in sel]
+
+
+def same_seq(a, b):
+    if isinstance(a, np.ndarray) or isinstance(b, np.ndarray):
+        return type(a) is type(b) and a.dtype == b.dtype and np.array_equal(a, b)
+    return type(a) is type(b) and len(a) == len(b) and all(type(x) is type(y) and x == y for x, y in zip(a, b))
+
+
+def df_form(case):
+    return int(case["DF"]) if case.get("DF_int") else case["DF"]
+
+
 def run_mpe(case):
     freq = np.array(case["freq"], float)
     Sval = np.array(case["Sval"], float)
     Svec = np.array([[[complex(z[0], z[1]) for z in ln] for ln in row] for row in case["Svec"]])
-    sel = list(case["sel"])
-    keep = (freq.copy(), Sval.copy(), Svec.copy(), list(sel))
+    sel = in_form(case["sel"], case.get("form", "list"))
+    keep = (freq.copy(), Sval.copy(), Svec.copy(), in_form(case["sel"], case.get("form", "list")))
     try:
-        Fn, Phi = fdd.FDD_mpe(Sval, Svec, freq, sel, DF=case["DF"])
+        Fn, Phi = fdd.FDD_mpe(Sval, Svec, freq, sel, DF=df_form(case))
         out = (None, np.asarray(Fn), np.asarray(Phi))
     except Exception as e:  # noqa: BLE001
         out = (type(e).__name__, None, None)
     changed = [n for n, a, b in (("freq", freq, keep[0]), ("Sval", Sval, keep[1]), ("Svec", Svec, keep[2])) if not np.array_equal(a, b)]
-    if sel != keep[3]:
+    if not same_seq(sel, keep[3]):
         changed.append("sel_freq")
     return out + (changed,)
 
@@ -196,6 +228,7 @@ def judge_mpe(ctx, case, model_s, site="FDD_mpe"):
     ctx.hist("mpe-outcome", exc or "ok")
     small = {k: case[k] for k in ("kind", "freq", "sel", "DF")}
     small.update(Sval=case["Sval"], Svec=case["Svec"])
+    small.update({k: case[k] for k in ("form", "DF_int") if k in case})
     if changed:
         ctx.fail("oracle", "%s modifies its argument(s) %s in place (the stored tables are no longer the decomposition of Sy)" % (site, changed), small,
                  key="C06:%s:args-mutated" % site)
@@ -279,6 +312,25 @@ def gen_scale_base(rng, ctx):
             ok = ok and len(los) == 1 and len(his) == 1 and band_decisive(ratio, s1, los[0], his[0])
         if ok:
             return case
+    return None
+
+
+def gen_form_base(rng, ctx):
+    """a valid case on a uniform grid that contains integer frequencies, with integer selected frequencies (in any
+    order) so that every input form of FORMS denotes exactly the same numbers."""
+    for _ in range(200):
+        case = gen_mpe_case(rng, ctx, malformed=False)
+        nf = len(case["freq"])
+        dfs = [d for d in (0.125, 0.25, 0.5) if nf * d >= 3.5] or [0.5]
+        df = float(rng.choice(dfs))
+        freq = df * np.arange(nf) + float(rng.choice([0.0, 1.0, 2.0]))
+        ints = [v for v in range(int(np.ceil(freq[1])), int(np.floor(freq[-2])) + 1)]
+        if not ints:
+            continue
+        nsel = int(rng.integers(1, min(3, len(ints)) + 1))
+        sel = [float(v) for v in rng.choice(ints, size=nsel, replace=False)]
+        DF = float(rng.choice([v for v in (df, 1.5 * df, 2 * df, 3 * df, 0.3, 0.7, 1.0, 2.0) if v >= df]))
+        return dict(case, kind="form-base", form="list", freq=freq.tolist(), sel=sel, DF=DF)
     return None
 
 
@@ -835,6 +887,91 @@ def part_C_scale(ctx):
             compare("FDD_MS", base, res, k, case)
 
 
+def part_C_forms(ctx):
+    """sel_freq / DF handed to the classes' mpe in every form a user may write them (ints, int arrays, tuples, float
+    arrays, mixed, reversed order; DF int or float): each call is judged by the property text with the exact values and
+    must give the result of the float-list call."""
+    from pyoma2.algorithms import EFDD, FDD, FDD_MS
+    from pyoma2.setup import MultiSetup_PreGER, SingleSetup
+
+    rng = ctx.np_rng
+    fs = 32.0
+
+    def call(setup, name, cls, sel, DF):
+        if cls in (FDD, FDD_MS):
+            setup.mpe(name, sel_freq=sel, DF=DF)
+        else:
+            setup.mpe(name, sel_freq=sel, DF1=DF, DF2=2.0, sppk=1, npmax=4)
+
+    def family(setup, name, alg, cls, site, selv, DFv, info, forms):
+        try:
+            call(setup, name, cls, [float(v) for v in selv], float(DFv))
+        except Exception:  # noqa: BLE001
+            ctx.not_judged += 1
+            return
+        Fn0, Phi0 = np.array(alg.result.Fn, copy=True), np.array(alg.result.Phi, copy=True)
+        snap = snapshot(alg.result)
+        for fm in forms:
+            rev = len(selv) > 1 and rng.random() < 0.4
+            vals = selv[::-1] if rev else selv
+            DF_int = bool(float(DFv).is_integer() and rng.random() < 0.7)
+            sel_in, sel_keep = in_form(vals, fm), in_form(vals, fm)
+            case = dict(info, kind="class-form", cls=site, sel=[float(v) for v in vals], DF=float(DFv), form=fm, DF_int=DF_int, reversed=rev)
+            try:
+                call(setup, name, cls, sel_in, int(DFv) if DF_int else float(DFv))
+            except Exception as e:  # noqa: BLE001
+                ctx.fail("oracle", "%s.mpe raises %s for sel_freq passed as %s (it returns for the same numbers as a list of floats)" % (site, type(e).__name__, fm),
+                         case, key="C06:%s:input-form" % site)
+                continue
+            ctx.count(case, nontrivial=True)
+            ctx.hist("class-form", (site, fm, "DF int" if DF_int else "DF float"))
+            if not same_seq(sel_in, sel_keep):
+                ctx.fail("oracle", "%s: the sel_freq passed in is modified in place" % site, case, key="C06:%s:args-mutated" % site)
+            if not unchanged(ctx, snap, alg.result, case, site):
+                continue
+            class_oracle(ctx, alg.result, case["sel"], case["DF"], case, site, fn_on_grid=cls in (FDD, FDD_MS))
+            Fn1, Phi1 = np.asarray(alg.result.Fn), np.asarray(alg.result.Phi)
+            if rev:
+                Fn1, Phi1 = Fn1[::-1], Phi1[:, ::-1]
+            if Fn1.shape != Fn0.shape or Phi1.shape != Phi0.shape or not np.array_equal(Fn1, Fn0) or np.abs(Phi1 - Phi0).max() > 1e-12:
+                ctx.fail("oracle", "%s: sel_freq = %r passed as %s%s, DF = %r as %s gives Fn %s where the float list gives %s"
+                         % (site, case["sel"], fm, " (reversed order)" if rev else "", case["DF"], "int" if DF_int else "float", Fn1.tolist(), Fn0.tolist()),
+                         case, key="C06:%s:input-form" % site)
+
+    for c in range(ctx.n(2, 8)):
+        nch = int(rng.integers(2, 5))
+        nxseg = int(rng.choice([64, 128]))
+        df = fs / nxseg
+        modes = sorted(int(v) for v in rng.choice(np.arange(3, 14), size=2, replace=False))
+        shapes = dy_c(rng, (2, nch), 8, 8.0)
+        shapes[:, 0] = 1.0
+        x = record(rng, 2048, fs, shapes, [float(m) for m in modes], 0.05)
+        method = "per" if c % 2 == 0 else "cor"
+        DFv = float(rng.choice([v for v in (0.3, 0.6, 0.75) if v >= df])) if c % 2 == 0 else float(rng.choice([1.0, 2.0]))   # below one Hz / an int
+        info = dict(nch=nch, nxseg=nxseg, method=method, fs=fs, seed_case=c, modes=modes, record=x.tolist())
+        for cls, site, forms in ((FDD, "FDD", FORMS[1:] if not ctx.quick() else ("int-list", "int64", "int32", "int-tuple")),
+                                 (EFDD, "EFDD", ("int-list", "int64") if ctx.quick() else ("int-list", "int64", "int32", "tuple"))):
+            ss = SingleSetup(x.copy(), fs=fs)
+            alg = cls(name="a", nxseg=nxseg, method_SD=method)
+            ss.add_algorithms(alg)
+            ss.run_by_name("a")
+            family(ss, "a", alg, cls, site, [float(m) for m in modes], DFv, info, forms)
+    for c in range(ctx.n(1, 4)):
+        nxseg = int(rng.choice([64, 128]))
+        df = fs / nxseg
+        modes = sorted(int(v) for v in rng.choice(np.arange(3, 14), size=2, replace=False))
+        shapes = dy_c(rng, (2, 5), 8, 8.0)
+        shapes[:, 0] = 1.0
+        datasets = [record(rng, 2048, fs, shapes[:, cols], [float(m) for m in modes], 0.05) for cols in ([0, 1, 2], [0, 1, 3, 4])]
+        ms = MultiSetup_PreGER(fs=fs, ref_ind=[[0, 1], [0, 1]], datasets=[d.copy() for d in datasets])
+        alg = FDD_MS(name="m", nxseg=nxseg, method_SD="per" if c % 2 else "cor")
+        ms.add_algorithms(alg)
+        ms.run_by_name("m")
+        DFv = float(rng.choice([v for v in (0.3, 0.6, 1.0) if v >= df]))
+        info = dict(nxseg=nxseg, fs=fs, seed_case=c, modes=modes, ref_ind=[[0, 1], [0, 1]], datasets=[d.tolist() for d in datasets])
+        family(ms, "m", alg, FDD_MS, "FDD_MS", [float(m) for m in modes], DFv, info, ("int-list", "int32", "int64") if ctx.quick() else FORMS[1:])
+
+
 # ----------------------------------------------------------------------------------------------------------------------
 def run(ctx):
     rng = ctx.np_rng
@@ -884,10 +1021,34 @@ def run(ctx):
         for k in ks:
             fam[bi].append(len(cases))
             cases.append(scaled_case(base, k, int(rng.choice([0, 0, -40, 17, 40]))))
-    res = ctx.coq_eval(HEADER, [mpe_expr(c) for c in cases], shard=ctx.n(14, 100))
+    # input-form families: the same numbers as Python ints, int32 / int64 arrays, tuples, float arrays, mixed lists, DF as
+    # int or float, the selected frequencies also in reversed order - one expected result (the model takes the exact values)
+    for b in range(ctx.n(7, 50)):
+        base = gen_form_base(rng, ctx)
+        if base is None:
+            continue
+        bi = len(cases)
+        cases.append(base)
+        fam[bi] = []
+        forms = list(FORMS[1:])
+        if ctx.quick():
+            forms = ["int-list", str(rng.choice(["int64", "int32"])), str(rng.choice(["int-tuple", "tuple", "ndarray", "mixed"]))]
+        for fm in forms:
+            m = dict(base, kind="form", form=fm, DF_int=bool(float(base["DF"]).is_integer() and rng.random() < 0.7))
+            if len(base["sel"]) > 1 and rng.random() < 0.4:
+                m["sel"] = base["sel"][::-1]
+                m["reversed"] = True
+            fam[bi].append(len(cases))
+            cases.append(m)
+    exprs = [mpe_expr(c) for c in cases]
+    uniq = list(dict.fromkeys(exprs))
+    res_u = dict(zip(uniq, ctx.coq_eval(HEADER, uniq, shard=ctx.n(14, 100))))
+    res = [res_u[e] for e in exprs]
     outs = []
     for i, (case, s) in enumerate(zip(cases, res)):
         ctx.hist("mpe-kind", case.get("kind", "corpus"))
+        if "form" in case:
+            ctx.hist("sel_freq-form", (case["form"], "DF int" if case.get("DF_int") else "DF float"))
         if "scale_log2" in case:
             ctx.hist("scale-log2", 10 * int(np.floor(case["scale_log2"][0] / 10.0)))
         outs.append(judge_mpe(ctx, case, s))
@@ -897,16 +1058,25 @@ def run(ctx):
         e0, Fn0, Phi0 = outs[b]
         for m in members:
             e1, Fn1, Phi1 = outs[m]
-            small = {k: cases[m][k] for k in ("kind", "freq", "sel", "DF", "Sval", "Svec", "scale_log2")}
+            cm = cases[m]
+            small = {k: cm[k] for k in ("kind", "freq", "sel", "DF", "Sval", "Svec", "scale_log2", "form", "DF_int", "reversed") if k in cm}
+            if "scale_log2" in cm:
+                how, key = "S_val is multiplied by 2^%d (S_vec by 2^%d)" % tuple(cm["scale_log2"]), "C06:FDD_mpe:scale-invariance"
+            else:
+                how = "sel_freq = %r is passed as %s%s and DF = %r as %s" % (cm["sel"], cm["form"], " in reversed order" if cm.get("reversed") else "",
+                                                                          cm["DF"], "int" if cm.get("DF_int") else "float")
+                key = "C06:FDD_mpe:input-form"
+            if Fn1 is not None and cm.get("reversed"):
+                Fn1, Phi1 = Fn1[::-1], Phi1[:, ::-1]
             if (e0 is None) != (e1 is None) or (Fn0 is None) != (Fn1 is None):
-                ctx.fail("oracle", "FDD_mpe: outcome changes (%s -> %s) when S_val is multiplied by 2^%d" % (e0 or "returns", e1 or "returns", cases[m]["scale_log2"][0]),
-                         small, key="C06:FDD_mpe:scale-invariance")
-            elif Fn0 is not None and (not np.array_equal(Fn0, Fn1) or np.abs(Phi0 - Phi1).max() > 1e-12):
-                ctx.fail("oracle", "FDD_mpe: multiplying S_val by 2^%d (S_vec by 2^%d) changes the result: Fn %s -> %s (the ratio of the singular values is unchanged)"
-                         % (cases[m]["scale_log2"][0], cases[m]["scale_log2"][1], Fn0.tolist(), Fn1.tolist()), small, key="C06:FDD_mpe:scale-invariance")
+                ctx.fail("oracle", "FDD_mpe: outcome changes (%s -> %s) when %s" % (e0 or "returns", e1 or "returns", how), small, key=key)
+            elif Fn0 is not None and (Fn0.shape != Fn1.shape or not np.array_equal(Fn0, Fn1) or np.abs(Phi0 - Phi1).max() > 1e-12):
+                ctx.fail("oracle", "FDD_mpe: the result changes when %s: Fn %s -> %s (same numbers, same band, same ratios)" % (how, Fn0.tolist(), Fn1.tolist()),
+                         small, key=key)
     ctx.extra["t_A"] = round(time.time() - ctx.t0, 1)
     part_B(ctx)
     ctx.extra["t_AB"] = round(time.time() - ctx.t0, 1)
     part_C(ctx, corpus_nb)
     part_C_scale(ctx)
+    part_C_forms(ctx)
     ctx.extra["t_ABC"] = round(time.time() - ctx.t0, 1)
